@@ -228,6 +228,8 @@ class EmptySettings(BaseSettings):
     an EmptySettings instance.)
     """
 
+    mode = None
+
     @property
     def nfeat(self):
         return 0
